@@ -977,7 +977,14 @@ pub struct GenOpts {
 }
 
 pub fn gen_case(rng: &mut Rng, kind: &str, o: &GenOpts) -> ConcCase {
-    let n = if rng.chance(2, 3) { 2 } else { 3 };
+    // thorough tier: sometimes a fourth thread
+    let n = if o.thorough && rng.chance(1, 8) {
+        4
+    } else if rng.chance(2, 3) {
+        2
+    } else {
+        3
+    };
     // with the C13 oracle on, half of the runs use the policy with unusable class pairs
     let ck = if o.custom && rng.chance(1, 3) { ClassKind::Custom } else { gen_kind(rng, o.custom) };
     let mut setup = Vec::new();
@@ -1307,6 +1314,20 @@ pub fn gen_case(rng: &mut Rng, kind: &str, o: &GenOpts) -> ConcCase {
                 if held_first && t == 0 && !p.iter().any(|o| matches!(o, SOp::PutHeld { .. })) {
                     p.insert(0, SOp::PutHeld { k: 0, sub: None, class: 0, slot: None });
                 }
+            }
+        }
+    }
+    if o.thorough && rng.chance(1, 4) {
+        // thorough tier: longer programs (the tail repeats earlier operations of the same thread,
+        // which keeps them meaningful for the family)
+        for p in programs.iter_mut() {
+            let len = p.len();
+            if len == 0 {
+                continue;
+            }
+            for _ in 0..rng.range(1, 3) {
+                let op = p[rng.below(len)].clone();
+                p.push(op);
             }
         }
     }
